@@ -23,6 +23,14 @@ pub fn set_script(items: &[Item]) {
     }
 }
 
+/// Loop-free variant.
+pub fn set_script_arr(items: [Item; KMAX]) {
+    unsafe {
+        SCRIPT = items;
+        POS = 0;
+    }
+}
+
 pub fn pos() -> usize {
     unsafe { POS }
 }
